@@ -8,7 +8,7 @@ from contracts import cluster_jit_c as C, sampler_jit_hist as H
 def main(tier):
     from vf.rtc import samplers
     rep = Report('C35', tier)
-    for c in (C.StartJC, C.EnergyJC, C.UpdateJC, C.TransitionsJC):
+    for c in (C.StartJC, C.EnergyJC, C.UpdateJC, C.TransitionsJC, C.DeltaEJC):
         driver.verify_function(c(), rep, tier)
     cases = samplers.cases(tier)
     t = time.time()
